@@ -4,6 +4,7 @@ from pyvc.api import *
 
 @contract("selfies/grammar_rules.py::next_atom_state", props=["C01", "C02", "C08"])
 def next_atom_state(bond_order: int, bond_cap: int, state: int):
+    returns('tuple[int,int|None]')
     requires(0 <= bond_order <= 3 and bond_cap >= 0 and state >= 0)
     # derivation.rst: mu = min(beta, alpha, i); X_i -> <B'><A> X_{alpha-mu}, terminal when alpha - mu = 0
     ensures(result[0] == (0 if state == 0 else min(bond_order, state, bond_cap)), tag="C02:mu")
@@ -15,6 +16,7 @@ def next_atom_state(bond_order: int, bond_cap: int, state: int):
 
 @contract("selfies/grammar_rules.py::next_branch_state", props=["C01", "C02", "C08"])
 def next_branch_state(branch_type: int, state: int):
+    returns('tuple[int,int]')
     requires(1 <= branch_type <= 3 and state > 1)
     # derivation.rst: branch init state n = min(i - 1, M), next state j = i - n
     ensures(result[0] == min(state - 1, branch_type), tag="C02:binit")
@@ -24,6 +26,7 @@ def next_branch_state(branch_type: int, state: int):
 
 @contract("selfies/grammar_rules.py::next_ring_state", props=["C01", "C02", "C08"])
 def next_ring_state(ring_type: int, state: int):
+    returns('tuple[int,int|None]')
     requires(1 <= ring_type <= 3 and state > 0)
     ensures(result[0] == min(ring_type, state), tag="C02:rorder")
     ensures(1 <= result[0] and result[0] <= 3 and result[0] <= state, tag="C01:rclip")
@@ -114,11 +117,13 @@ RING_DOC = {'[Ring1]': (1, 1, (None, None)), '[=Ring1]': (2, 1, (None, None)), '
 
 @contract("selfies/grammar_rules.py::process_branch_symbol", props=["C02", "C08", "C18"])
 def process_branch_symbol(symbol: str):
+    returns('None|tuple[int,int]')
     ensures(result == (BRANCH_DOC[symbol] if symbol in BRANCH_DOC else None), tag="C02:branch-symbol-table")
 
 
 @contract("selfies/grammar_rules.py::process_ring_symbol", props=["C02", "C04", "C08", "C18"])
 def process_ring_symbol(symbol: str):
+    returns('None|tuple[int,int,tuple[str|None,str|None]]')
     ensures(result == (RING_DOC[symbol] if symbol in RING_DOC else None), tag="C02,C04:ring-symbol-table")
 
 
@@ -177,6 +182,7 @@ def _process_atom_selfies_no_cache(symbol: str):
 
 @contract("selfies/grammar_rules.py::process_atom_symbol", props=["C01", "C02", "C08", "C10", "C11", "C19"])
 def process_atom_symbol(symbol: str):
+    returns('None|tuple[tuple[int,str|None],Atom]')
     requires(ascii_str(symbol) and len(symbol) <= 4000)
     requires(table_ok(_current_constraints) and atom_cache_ok())
     requires(_PROCESS_ATOM_CACHE != _current_constraints)
